@@ -196,14 +196,20 @@ Theorem C14_harness_steps_reachable :
 Proof. exact harness_steps_reachable. Qed.
 Print Assumptions C14_harness_steps_reachable.
 
-(* max_fails is stored as int32(n): the threshold is the configured one for every value that
-   fits, and NOT for larger accepted values (F-C14-2: max_fails 4294967296 => always down). *)
-Theorem C14_max_fails_stored_partial :
-  forall n, -2147483648 <= n < 2147483648 -> wrap_int32 n = n.
-Proof. exact wrap_int32_id. Qed.
-Print Assumptions C14_max_fails_stored_partial.
+(* max_fails: the literal is parsed with a 32-bit size, so whatever setup accepts is stored
+   unchanged as the int32 threshold — the backend is down exactly from max_fails outstanding
+   failures on, for every accepted value — and exactly the values 1 .. 2^31-1 are accepted
+   (F-C14-2, fixed: larger values used to be accepted and truncated). *)
+Theorem C14_max_fails_stored :
+  forall n m, parse_max_fails n = Some m -> m = n /\ 1 <= m.
+Proof. exact max_fails_stored. Qed.
+Print Assumptions C14_max_fails_stored.
 
-Theorem C14_max_fails_stored_refuted :
-  exists n k, 1 <= n /\ 0 <= k < n /\ (wrap_int32 n <=? k) = true.
-Proof. exact maxfails_wrap_refuted. Qed.
-Print Assumptions C14_max_fails_stored_refuted.
+Theorem C14_max_fails_accepted_iff :
+  forall n, (exists m, parse_max_fails n = Some m) <-> 1 <= n < 2147483648.
+Proof. exact max_fails_accepted_iff. Qed.
+Print Assumptions C14_max_fails_accepted_iff.
+
+Example C14_max_fails_stored_nonvacuous :
+  parse_max_fails 2147483647 = Some 2147483647 /\ parse_max_fails 4294967296 = None.
+Proof. vm_compute. split; reflexivity. Qed.
